@@ -1820,6 +1820,8 @@ pub mod internal {
     pub use crate::vm::{run_default, run_trace, Insn, Prog};
     #[cfg(fancy_regex_verif)]
     pub use crate::vm::verif_hooks::StateH;
+    #[cfg(fancy_regex_verif)]
+    pub use crate::analyze::Info;
 }
 
 #[cfg(test)]
